@@ -38,6 +38,11 @@ class Shutdown(DExplore):
             return out
         for i, s in enumerate(w.sides):
             if sim.stopped_req[i]:
+                if s.m is None:
+                    # (full stack) closed before dilate() was ever called: nothing of dilation to shut down, but close() itself must complete
+                    if not s.stopped:
+                        out.append(("stop() did not complete", "%s never dilated; close() pending" % s.name))
+                    continue
                 if not s.stopped:
                     out.append(("stop() did not complete", "%s is %s" % (s.name, s.state())))
                 for port, lp in w.net.ports.items():
@@ -49,7 +54,7 @@ class Shutdown(DExplore):
                         if getattr(getattr(p, "_connector", None), "_manager", None) is s.m and not t.lost:
                             out.append(("connection left open after stop", "%s link %d" % (s.name, t.link)))
         # peer cannot dilate: connect() must fail, not hang
-        if sim.peer_inert and sim.started[0]:
+        if sim.peer_inert and sim.started[0] and getattr(sim, "peer_versions_seen", lambda: True)():
             for n, res in sim.connect_d.items():
                 if not res:
                     out.append(("connect() left pending although the peer cannot dilate", n))
@@ -58,8 +63,41 @@ class Shutdown(DExplore):
         return out
 
 
+# ---- the statement itself: CLOSING A WORMHOLE on which dilate() was called completes (real Boss/Terminator/Dilator on top of the Manager)
+from harness import fullstack as FS  # noqa: E402
+
+FS_CONFIGS = {
+    "fs-close-anywhere": dict(app=True),
+    "fs-close-anywhere-dilate-late": dict(app=False, dilate_when="late", lose_any=True),
+    "fs-old-peer": dict(app=True, old_peer=True),
+    "fs-old-peer-dilate-late": dict(app=True, old_peer=True, dilate_when="late"),
+}
+
+
+class FShutdown(FS.FExplore):
+    configs = FS_CONFIGS
+
+    def final_phase(self, sim):
+        did = False
+        for a in list(sim.enabled()):
+            if a[0] == "stop" and a in sim.enabled():
+                sim.do(a)
+                did = True
+        return did
+
+    def violations(self, sim, when):
+        out = Shutdown.violations(self, sim, when)
+        if when == "settled":
+            for i, s in enumerate(sim.w.sides):
+                if sim.stopped_req[i] and s.stopped and s.c.state("B") != "S4_closed":
+                    out.append(("closed notification although the Boss is not closed", "%s: %s" % (s.name, s.c.state("B"))))
+                if sim.stopped_req[i] and s.m is not None and s.state() != "STOPPED":
+                    out.append(("wormhole closed but dilation not stopped", "%s is %s" % (s.name, s.state())))
+        return out + FS.app_message_violations(sim, when)
+
+
 def jobs(tier):
-    return make_jobs(Shutdown, tier, 2, 3) + make_drandom_jobs(Shutdown, tier)
+    return make_jobs(Shutdown, tier, 2, 3) + make_drandom_jobs(Shutdown, tier) + FS.make_jobs(FShutdown, tier, 2, 3) + FS.make_random_jobs(FShutdown, tier, per_cfg=32)
 
 
 ASSUMPTIONS = [
